@@ -89,7 +89,10 @@ def secName (img : Option Img) (k i : String) : String :=
       let name := (List.range 8).map fun j => byteAt v.b (o + j)
       let hx (l : List Nat) : String := hex (l.map (·.toUInt8)).toArray
       let t := Pelite.Pe.trimn name
-      (if (Resources.utf8Chars t).isSome then s!"ok str {hx t}" else s!"ok raw {hx name}") ++ s!" bytes={hx t}"
+      -- src: wrap/sections.rs:SectionHeader::virtual_range, file_range (`u32::wrapping_add`)
+      let sec := secAt v.b o
+      (if (Resources.utf8Chars t).isSome then s!"ok str {hx t}" else s!"ok raw {hx name}") ++ s!" bytes={hx t}" ++
+        s!" vr={sec.va}..{wadd32 sec.va sec.vs} fr={sec.prd}..{wadd32 sec.prd sec.rs}"
     else "nosec"
 
 def dispatchJson : Handler := fun st fam a =>
